@@ -44,6 +44,12 @@ func (s *Service) SignContributionAndProofs(ctx context.Context,
 
 	// Calculate the domain.
 	epoch := phase0.Epoch(contributionAndProofs[0].Contribution.Slot / s.slotsPerEpoch)
+	for i := range contributionAndProofs {
+		// All items are signed with a single domain, so they must all be for the same epoch.
+		if phase0.Epoch(contributionAndProofs[i].Contribution.Slot/s.slotsPerEpoch) != epoch {
+			return []phase0.BLSSignature{}, errors.New("contribution and proofs are not all for the same epoch")
+		}
+	}
 	domain, err := s.domainProvider.Domain(ctx, *s.contributionAndProofDomainType, epoch)
 	if err != nil {
 		return []phase0.BLSSignature{}, errors.Wrap(err, "failed to obtain signature domain for contribution and proof")
